@@ -60,6 +60,11 @@ pub fn run() {
     println!("C09-fsl-len-overflow FixedSizeListArray::try_new_with_length(size 2, empty values, len 2^63): {}",
         match &t { Ok(r) => format!("{} (len {:?})", ok(r), r.as_ref().map(|a| a.len()).ok()), Err(p) => format!("panic {p}") });
 
+    // C09-run-end-buffer-empty
+    let r = guarded(|| arrow_buffer::RunEndBuffer::new(arrow_buffer::ScalarBuffer::<i32>::from(vec![1, 2, 3]), 1000, 0));
+    println!("C09-run-end-buffer-empty  RunEndBuffer::new(run_ends [1,2,3], logical_offset 1000, logical_length 0): {}",
+        if r.is_ok() { "ACCEPTED" } else { "rejected (panic)" });
+
     // C01-arraydata-slice-struct
     let st = StructArray::new(Fields::from(vec![Field::new("a", DataType::Int32, true)]), vec![Arc::new(Int32Array::from(vec![1, 2, 3, 4, 5]))], None);
     let s = st.to_data().slice(2, 3);
